@@ -133,6 +133,12 @@ def gen_jobs(ctx):
                 for _ in range(3):
                     jobs.append(_one(rng, k, n))
     jobs += zone_block(ctx)
+    # confirmation stream of an open finding: a legal column name that ends in "-catdef" (the reader's internal key for the label
+    # array of a categorical) with several row groups
+    base = {"compression": None, "row_group_offsets": 3, "has_nulls": True, "page_size": None, "dpv": 1, "stats": True,
+            "times": "int64", "object_encoding": "infer", "file_scheme": "simple", "write_index": None}
+    jobs.append(({"n": 10, "cols": [{"name": "x-catdef", "kind": "int64", "nulls": "none", "seed": 3},
+                                    {"name": "y", "kind": "float64", "nulls": "none", "seed": 4}], "index": None}, dict(base)))
     # random multi-column frames
     for _ in range(400 if quick else 2500):
         spec = F.gen_spec(rng, n=rng.choice(sizes_small + ([257, 8193] if rng.random() < 0.1 else [])))
@@ -234,6 +240,7 @@ def run(ctx):
         if res["outcome"] in ("differs", "read-raised"):
             cls = rt.classify(spec, o, res)
             cls["n"] = spec["n"]
+            cls["catdef_name"] = any(str(c["name"]).endswith("-catdef") for c in spec["cols"])
             if res.get("crashed"):
                 cls["outcome"] = "crashed"
                 ctx.count("outcome", "crashed")
